@@ -124,6 +124,18 @@ pub fn run(o: &Opts) -> i32 {
                             }
                         }
                     }
+                    // scaling a substance: `k s / j`, `s k / j` and `(k / j) s` are the same amount of the same substance
+                    for j in ["2", "(3|4)"] {
+                        let num = |r: Option<QueryReply>| match r { Some(QueryReply::Number(n)) => n.raw_value.clone(), Some(QueryReply::Duration(d)) => d.raw.raw_value.clone(), _ => None };
+                        let reference = num(ev(&format!("{} of (({}) / ({})) {}", pname, k, j, sname)));
+                        for q in [format!("{} of ({} {} / {})", pname, k, sname, j), format!("{} of ({} {} / {})", pname, sname, k, j), format!("{} of ({} / {} * {})", pname, sname, j, k)] {
+                            let got = num(ev(&q));
+                            if reference.is_some() && got != reference {
+                                nviol += 1;
+                                writeln!(orc, "{}", json!({"law": "scaling", "query": q, "property": pname, "want": reference.as_ref().map(fmt_number), "got": got.as_ref().map(fmt_number)})).unwrap();
+                            }
+                        }
+                    }
                     let direct = match ev(&format!("{} of {} {}", pname, k, sname)) { Some(QueryReply::Number(n)) => n.raw_value.clone(), Some(QueryReply::Duration(d)) => d.raw.raw_value.clone(), _ => None };
                     if let (Some(direct), Some(QueryReply::Substance(r))) = (direct, ev(&format!("{} {}", k, sname))) {
                         if let Some(pr) = r.properties.iter().find(|x| &x.name == pname) {
